@@ -8,7 +8,7 @@ def _hook_commits():
     except Exception:
         return []
 
-CLAIMED_IDS = ['C01', 'C02', 'C03', 'C04', 'C05', 'C06', 'C07', 'C08', 'C09', 'C10', 'C12', 'C15', 'C16']
+CLAIMED_IDS = ['C01', 'C02', 'C03', 'C04', 'C05', 'C06', 'C07', 'C08', 'C09', 'C10', 'C12', 'C13', 'C14', 'C15', 'C16']
 
 HOOKS = {
     'guard': 'cargo feature `verif` (cfg(feature = "verif"))',
@@ -21,7 +21,7 @@ HOOKS = {
 ENGINES = [
     {'name': 'engine-b-mirse', 'path': 'mirse/', 'serves_properties': sorted(CLAIMED_IDS),
      'kind_free_text': 'symbolic executor over rustc MIR text dump of /repo (regenerated per run), z3 decides path feasibility and postconditions, cvc5 cross-checks a sample of final queries, counterexamples replayed natively through harness/src/bin/replay.rs'},
-    {'name': 'engine-a-kani', 'path': 'harness/', 'serves_properties': [],
+    {'name': 'engine-a-kani', 'path': 'harness/src/proofs.rs + kani/runner.py', 'serves_properties': ['C01', 'C12', 'C13', 'C14', 'C15'],
      'kind_free_text': 'Kani 0.68 / CBMC 6.11 proof harnesses over the compiled crate (byte-level units)'},
 ]
 
@@ -46,7 +46,7 @@ CLAIMED = {
             'text': 'writer fragmentation geometry for every start offset and record length <= 3 blocks (O12.1); reader reassembly over abstract block-accurate fragment streams: intact or cut at any byte (O12.3), abandoned record prefix + reopened writer (O12.4)',
             'note': B_NOTE + '; byte contents (payload fidelity, CRC) are not represented in Engine B', 'technique': TECH},
     'C15': {'engine': 'engine-b-mirse', 'design_ref': 'DESIGN.md section 4 C15',
-            'text': 'log reader under one fragment with a failing checksum (any position, symbolic lengths): exactly the damaged record is dropped, every other record is returned, alignment is kept (O15.5)',
+            'text': 'log reader under one fragment with a failing checksum (any position, symbolic lengths): exactly the damaged record is dropped, every other record is returned, alignment is kept (O15.5); a seek into an unreadable table block reports an error every time (O4.3); Kani: one-record log with one altered byte never yields a foreign record (O15.2), parsers never panic on arbitrary bytes (O15.3), crc masking is a bijection (O15.1)',
             'note': B_NOTE + '; corruption is modelled as "BlockRecord::try_from fails for that fragment" with an intact length field; table files and manifests are not covered', 'technique': TECH},
     'C16': {'engine': 'engine-b-mirse', 'design_ref': 'DESIGN.md section 4 C16',
             'text': 'log level: a torn tail is end-of-file and costs only the torn record (O12.3 with the cut inside the last fragment); records appended after a torn tail (O16.2) - known finding D1c',
@@ -66,13 +66,19 @@ CLAIMED = {
     'C09': {'engine': 'engine-b-mirse', 'design_ref': 'DESIGN.md section 4 C09',
             'text': 'self-deadlock freedom only: on no path of get_descriptor (all three descriptors), get_snapshot, release_snapshot, compact_range (incl. the forced memtable / level compaction helpers), get, new_iterator is the non-reentrant database mutex locked while that path already holds it (O9.1)',
             'note': B_NOTE + '; data-insensitive exploration (paths are merged by lock state per call context); queue hand-off, condition-variable liveness and every other interleaving-dependent hang are outside the claim', 'technique': TECH + '; lock-state monitor over MIR paths, native watchdog replay'},
+    'C13': {'engine': 'engine-b-mirse + engine-a-kani', 'design_ref': 'DESIGN.md section 4 C13',
+            'text': 'below the whole-file level: Table::get tri-state for every lookup bound over abstract block cursors (O1.6); two-level table iterator = cursor over the concatenated data blocks for every cursor pattern of length <= 4, incl. an unreadable block (O4.3); byte-level (Kani): separators / successors keep lower <= sep < upper and satisfy the index-key contract assumed by O1.6 (O13.1), InternalKey order (O1.1)',
+            'note': B_NOTE + '; Engine A: Kani/CBMC on the compiled crate, shapes (key lengths 1-3) are harness constants, alloc::fmt::format stubbed; block encoding / prefix compression / snappy / footer are not covered (codec round trips exceed the memory budget)', 'technique': TECH + '; Kani/CBMC bounded model checking for byte-level units'},
+    'C14': {'engine': 'engine-a-kani', 'design_ref': 'DESIGN.md section 4 C14',
+            'text': 'Kani/CBMC: a Bloom filter built from two keys (lengths 0-5, symbolic bytes, bits_per_key in {1, 5, 9, 10, 43, 64}) answers true for both, also when read by a policy configured with another bits_per_key (O14.1)',
+            'note': 'bounded model checking of the compiled BloomFilterPolicy; key counts, key lengths and bits_per_key are harness constants; alloc::fmt::format stubbed; the filter-block index mapping (which filter covers which data block) is not covered by this check', 'technique': 'Kani/CBMC bounded model checking of the compiled code, concrete-playback replay of counterexamples'},
     'C07': {'engine': 'engine-b-mirse', 'design_ref': 'DESIGN.md section 4 C07',
             'text': 'solver-decided obligations on compaction input selection: hull of several files (O7.1, known finding D4), overlapping inputs incl. level-0 range expansion and its termination (O7.2), boundary files (O7.3), overlap test (O7.4a), base-level test for tombstones (O7.4b), memtable output level (O7.4c)',
             'note': B_NOTE, 'technique': 'symbolic execution of rustc MIR + z3 (SMT), cvc5 cross-check, native replay of counterexamples'},
 }
 
 _NOT_YET = 'obligations for this property are designed (DESIGN.md section 4) but not yet registered in this commit'
-NOT_APPLICABLE = {pid: _NOT_YET for pid in ['C11', 'C13', 'C14']}
+NOT_APPLICABLE = {pid: _NOT_YET for pid in ['C11']}
 NOT_APPLICABLE['C17'] = 'the mechanism is flock(2) through the fs2 FFI on a real file descriptor plus racing threads; neither engine has a model of flock or of threads, and a contract "lock_file returns anything" decides nothing'
 
 NOTES = 'See DESIGN.md. Exit codes of ./check: 0 held (KNOWN-FINDING lines for recorded defects), 1 VIOLATION, 2 inconclusive (tool limit or non-reproducing counterexample; never reported as held).'
